@@ -16,7 +16,7 @@ from mc.report import Report
 
 LEVEL = "model_checking"
 RULE = ("BFS from every start object (class in {BaseSamples, Samples, SMCSamples} x {numpy,torch,jax} x {float32,float64} x "
-        "8 subsets of the optional fields x parameter names stored in non-lexicographic order (b, a) [and (a, b) for numpy], 4 tagged rows) over the action alphabet {int index 0/-1, 3 slices, 2 boolean masks (also one written as a Python list), "
+        "8 subsets of the optional fields x parameter names stored in non-lexicographic order (b, a) [and (a, b) for numpy], 4 tagged rows; SMCSamples also with zero-valued temperature / evidence) over the action alphabet {int index 0/-1, 3 slices, 2 boolean masks (also one written as a Python list), "
         "2 index arrays (reversal, repeats), partition at each cut + concatenate (also with one piece pickled / dict-converted in between), pickle round trip, to_dict->from_dict flat/"
         "nested/flat without copying} to depth 3 (quick) / 4 (thorough); abstract state = (class, namespace, dtype, row-tag tuple, field presence, "
         "evidence tag); every transition is executed on the implementation and the resulting object compared with the "
@@ -28,6 +28,7 @@ ASSUMPTIONS = [
 ]
 
 N0 = 4
+ZERO = {"on": False}  # start objects whose set-level attributes are zero (beta = 0: the first SMC population; evidence 0.0)
 NAMES = ["b", "a"]  # storage order (column 0 is "b"): deliberately not the lexicographic order of the names
 EV_SMC = -1.25
 ERR_SMC = 0.125
@@ -40,14 +41,15 @@ class Model:
         self.cls, self.ns, self.dt, self.flags, self.tags, self.ev, self.row = cls, ns, dt, flags, tuple(tags), ev, row
 
     def key(self):
-        return (self.cls, self.ns, self.dt, self.flags, self.tags, self.ev, self.row, tuple(NAMES))
+        return (self.cls, self.ns, self.dt, self.flags, self.tags, self.ev, self.row, tuple(NAMES), ZERO["on"])
 
 
-def start(cls, ns, dt, flags, names=None):
+def start(cls, ns, dt, flags, names=None, zero=False):
     from aspire import samples as S
 
     if names is not None:
         NAMES[:] = list(names)
+    ZERO["on"] = bool(zero)
 
     xp = get_xp(ns)
     i = np.arange(N0, dtype=np.float64)
@@ -61,7 +63,7 @@ def start(cls, ns, dt, flags, names=None):
         kw["log_q"] = xp.asarray(300 + i)
     C = getattr(S, cls)
     if cls == "SMCSamples":
-        kw.update(beta=0.5, log_evidence=EV_SMC, log_evidence_error=ERR_SMC)
+        kw.update(beta=0.0 if zero else 0.5, log_evidence=0.0 if zero else EV_SMC, log_evidence_error=0.0 if zero else ERR_SMC)
     obj = C(x=xp.asarray(x), xp=xp, dtype=get_dtype(ns, dt), parameters=list(NAMES), **kw)
     if cls == "Samples":
         ev = "computed:" + ",".join(map(str, range(N0))) if all(flags) else None
@@ -259,20 +261,22 @@ def compare(obj, model):
             elif abs(float(tonp(ev)) - want) > 1e-5:
                 out.append(("evidence-recomputed-not-carried", {"got": float(tonp(ev)), "carried": want}))
     if model.cls == "SMCSamples":
-        if obj.beta != 0.5:
+        want_beta, want_ev, want_err = (0.0, 0.0, 0.0) if ZERO["on"] else (0.5, EV_SMC, ERR_SMC)
+        if obj.beta is None or obj.beta != want_beta:
             out.append(("beta", obj.beta))
         if model.ev == "given":
             if obj.log_evidence is None:
                 out.append(("evidence-lost", None))
-            elif float(tonp(obj.log_evidence)) != EV_SMC:
+            elif float(tonp(obj.log_evidence)) != want_ev:
                 out.append(("evidence-changed", float(tonp(obj.log_evidence))))
-            if obj.log_evidence_error is None or float(tonp(obj.log_evidence_error)) != ERR_SMC:
+            if obj.log_evidence_error is None or float(tonp(obj.log_evidence_error)) != want_err:
                 out.append(("evidence-error-lost", None))
     return out
 
 
 def run_start(arg):
-    cls, ns, dt, flags, depth, names = arg
+    cls, ns, dt, flags, depth, names = arg[:6]
+    zero = arg[6] if len(arg) > 6 else False
     r = Report()
     cache = {}
 
@@ -280,7 +284,7 @@ def run_start(arg):
         if hist in cache:
             return cache[hist]
         if not hist:
-            res = start(cls, ns, dt, flags, names)
+            res = start(cls, ns, dt, flags, names, zero)
         else:
             obj, model = build(hist[:-1])
             if isinstance(obj, Failed):
@@ -305,7 +309,7 @@ def run_start(arg):
 
     def on_state(res, hist, key):
         obj, model = res
-        case = {"start": [cls, ns, dt, list(flags)], "names": list(names), "history": [list(a) for a in hist]}
+        case = {"start": [cls, ns, dt, list(flags)], "names": list(names), "zero": zero, "history": [list(a) for a in hist]}
         r.case(explorer.digest(case), nontrivial=len(hist) > 0)
         if isinstance(obj, Failed):
             a = obj.action
@@ -354,6 +358,8 @@ def run(tier, seed, workers):
                     jobs.append((cls, ns, dt, flags, d, ("b", "a")))
                     if ns == "numpy" and (tier == "thorough" or dt == "float64"):
                         jobs.append((cls, ns, dt, flags, d, ("a", "b")))
+                    if cls == "SMCSamples" and (ns != "jax" or tier == "thorough") and flags in ((True, True, True), (False, False, False)):
+                        jobs.append((cls, ns, dt, flags, d, ("b", "a"), True))
     jobs.sort(key=lambda j: (j[1] != "jax", j[1] != "torch"))
     for d in pmap("checks.c16", "run_start", jobs, workers):
         rep.merge(d)
@@ -369,7 +375,7 @@ def extra_coverage(rep):
 def replay(case):
     r = Report()
     cls, ns, dt, flags = case["start"]
-    obj, model = start(cls, ns, dt, tuple(flags), case.get("names", ["a", "b"]))
+    obj, model = start(cls, ns, dt, tuple(flags), case.get("names", ["a", "b"]), case.get("zero", False))
     r.case("replay")
     for a in case["history"]:
         a = tuple(a)
